@@ -191,6 +191,22 @@ def program(form, e, p, provided=None, evalue=None):
     return head + "main :: () -> i32 {\n" + body + "}\n"
 
 
+def array_program(form, e, p):
+    head = R.PRELUDE + decls_for(e, p)
+    mk = f"    {p.setup('p0')}\n    pa : [2]{p.name} = {p.name}.[p0, p0];\n"
+    if form == "annot":
+        body = mk + f"    x : [2]{e.name} = pa;\n    0\n"
+    elif form == "arg":
+        head += f"f :: (a: [2]{e.name}) {{ }}\n"
+        body = mk + "    f(pa);\n    0\n"
+    elif form == "ret":
+        head += f"g :: () -> [2]{e.name} {{\n{mk}    pa\n}}\n"
+        body = "    g();\n    0\n"
+    else:
+        body = mk + f"    {e.setup('e0')}\n    m : [2]{e.name} = {e.name}.[e0, e0];\n    m = pa;\n    0\n"
+    return head + "main :: () -> i32 {\n" + body + "}\n"
+
+
 MISMATCH = re.compile(r"expected an? .* but found|cannot be [a-z' ]+ `|cannot cast|they must be the same")
 
 
@@ -462,6 +478,8 @@ def run_job(arg):
         return job, c, r, src
     if job[0] == "control":
         return job, compile_retry(d, {"main.capy": job[2]}), None, job[2]
+    if job[0] == "arr":
+        return job, compile_retry(d, {"main.capy": job[4]}), None, job[4]
     cat, form, e, p = job[0], job[1], job[2], job[3]
     src = program(form, e, p, provided=None if cat == "neg" else job[4])
     return job, compile_retry(d, {"main.capy": src}), None, src
@@ -483,6 +501,13 @@ def run(tier, seed):
     src, checks = cast_aggregate_program()
     jobs.append(("cast", "struct_array", src, checks))
     jobs.append(("control", "operators", control_program()))
+    # arrays whose ELEMENT type is nominal: [2]P is never accepted where [2]E is expected (E a different nominal type or P's underlying type)
+    arr_pairs = [("Db_i32", "Da_i32"), ("i32", "Da_i32"), ("DDa_i32", "Da_i32"), ("S2", "S1"), ("S1", "DS1"), ("DS2", "DS1"), ("Db_f64", "Da_f64"), ("Da_u8", "Db_u8")]
+    arr_forms = ["annot", "arg", "ret", "assign"]
+    for en, pn in arr_pairs:
+        forms = arr_forms if tier != "quick" else [arr_forms[(rng.below(4) + k) % 4] for k in range(2)]
+        for form in forms:
+            jobs.append(("arr", form, en, pn, array_program(form, TS[en], TS[pn])))
     results = C.pmap(run_job, [(work, i, j) for i, j in enumerate(jobs)])
 
     viol, inconc, sigs, samples = [], [], set(), []
@@ -513,6 +538,24 @@ def run(tier, seed):
                 sigs.add(("cast", job[1]))
                 if len([s for s in samples if "cast" in s]) < 1:
                     samples.append({"cast": job[1], "program_tail": src[len(R.PRELUDE):][:500], "output_head": r.out[:160]})
+            continue
+        if job[0] == "arr":
+            form, en, pn = job[1], job[2], job[3]
+            e, p = TS[en], TS[pn]
+            wit = {"files": {"main.capy": src}, "category": "neg"}
+            if c.internal_error:
+                viol.append({"key": "internal_error", "sig": "internal_error|" + c.panic_sig(), "what": f"array-of-nominal case {form} [2]{en} <- [2]{pn}: internal compiler error", "witness": wit})
+                continue
+            evals += 1
+            if c.accepted:
+                viol.append({"key": "accepted_foreign_nominal", "sig": f"accepted_foreign_nominal|array_elements|{form}|{e.kdesc}|{p.kdesc}",
+                             "what": f"an array of {pn} ({p.kdesc}) is implicitly accepted where an array of {en} ({e.kdesc}) is expected, form {form}", "witness": wit})
+            elif not any(MISMATCH.search(l) and e.disp in l and p.disp in l for l in c.diag_kinds()):
+                evals -= 1
+                inconc.append(f"array case {form} {en} <- {pn} rejected for another reason: {c.diag_kinds()[:2]}")
+            else:
+                sigs.add(("arr", form, e.kdesc, p.kdesc))
+                cnt["array_element_cases_rejected"] = cnt.get("array_element_cases_rejected", 0) + 1
             continue
         if job[1].startswith("bin") and not control_ok:
             inconc.append(f"binary form skipped (control failed): {job[1]} {job[2].name} {job[3].name}")
